@@ -84,7 +84,7 @@ def _calculate_objective(y_factors, pars_to_adjust, output_quantities, parset, p
             y2 = np.interp(data_t, var[0].t, var[0].vals, left=np.nan, right=np.nan)
 
         idx = ~np.isnan(y) & ~np.isnan(y2)
-        objective += weight * sum(_calculate_fitscore(y[idx], y2[idx], metric))
+        objective += weight * np.sum(_calculate_fitscore(y[idx], y2[idx], metric))
 
     return objective
 
